@@ -119,6 +119,31 @@ enum Hooks {
     None,
     StopBeforeSyscall,
     StopAfterNop,
+    /// an after-hook on NOP sets the instruction limit to HOOK_LIMIT (a total) while the run is
+    /// under way - lowering it from none / 5, raising it from 1 / 2 (seed C11j: execute() that
+    /// reads the limit once)
+    LimitAfterNop,
+}
+const HOOK_LIMIT: u64 = 3;
+
+fn limit_hook() -> &'static RustCallbackFunction {
+    HOOKS.with(|h| {
+        let mut h = h.borrow_mut();
+        while h.len() < 2 {
+            if h.is_empty() {
+                h.push(Box::leak(Box::new(|ax: &mut Axecutor, _m: SupportedMnemonic| {
+                    ax.stop();
+                    Ok(HookResult::Handled)
+                })));
+            } else {
+                h.push(Box::leak(Box::new(|ax: &mut Axecutor, _m: SupportedMnemonic| {
+                    ax.set_max_instructions(HOOK_LIMIT);
+                    Ok(HookResult::Handled)
+                })));
+            }
+        }
+        h[1]
+    })
 }
 
 struct Cfg<'a> {
@@ -149,6 +174,7 @@ fn build(c: &Cfg) -> Axecutor {
         Hooks::None => {}
         Hooks::StopBeforeSyscall => ax.hook_before_mnemonic_native(SupportedMnemonic::Syscall, stop_hook()).unwrap(),
         Hooks::StopAfterNop => ax.hook_after_mnemonic_native(SupportedMnemonic::Nop, stop_hook()).unwrap(),
+        Hooks::LimitAfterNop => ax.hook_after_mnemonic_native(SupportedMnemonic::Nop, limit_hook()).unwrap(),
     }
     ax
 }
@@ -239,6 +265,7 @@ fn model_run(c: &Cfg, viol: &mut Vec<(String, String)>, ctx: &str) -> (u64, u64)
     let mut ax = build(c);
     let end = BASE + c.code.len() as u64;
     let mut count: u64 = 0;
+    let mut cur_limit: Option<u64> = c.limit;
     // 8-byte slots on the stack (pushes minus pops): a RET is top-level when it finds none
     let mut depth: i64 = 0;
     let mut transitions = 0u64;
@@ -247,7 +274,7 @@ fn model_run(c: &Cfg, viol: &mut Vec<(String, String)>, ctx: &str) -> (u64, u64)
         let rip = crate::emu::rip(&ax);
         let before_fp = crate::emu::fingerprint(&ax);
         // limit guard
-        if let Some(l) = c.limit {
+        if let Some(l) = cur_limit {
             if count >= l {
                 let out = crate::emu::step(&mut ax);
                 transitions += 1;
@@ -274,7 +301,7 @@ fn model_run(c: &Cfg, viol: &mut Vec<(String, String)>, ctx: &str) -> (u64, u64)
             }
             StepOut::Err(_) => {
                 // a failing step: the limit must not be the reason before N instructions ran
-                if let (Some(l), StepOut::Err(e)) = (c.limit, &out) {
+                if let (Some(l), StepOut::Err(e)) = (cur_limit, &out) {
                     if e.contains("Instruction limit") && count < l {
                         v("loop|limit-too-early", format!("{ctx}: limit {l} refused instruction {}", count + 1));
                     }
@@ -341,6 +368,9 @@ fn model_run(c: &Cfg, viol: &mut Vec<(String, String)>, ctx: &str) -> (u64, u64)
         if i.mnemonic() == Mnemonic::Nop && c.hooks == Hooks::StopAfterNop {
             finish_expected = true;
         }
+        if i.mnemonic() == Mnemonic::Nop && c.hooks == Hooks::LimitAfterNop {
+            cur_limit = Some(HOOK_LIMIT);
+        }
         if now == end {
             finish_expected = true;
         }
@@ -403,7 +433,7 @@ fn gen(maxlen: usize) -> impl Fn(&mut EnumCtx) + Sync {
                 for limit in limits {
                     // 0x108: a length that is not a multiple of 16 (the initial RSP is aligned down)
                     for stack in [None, Some(0x100u64), Some(0x108)] {
-                        for hooks in [Hooks::None, Hooks::StopBeforeSyscall, Hooks::StopAfterNop] {
+                        for hooks in [Hooks::None, Hooks::StopBeforeSyscall, Hooks::StopAfterNop, Hooks::LimitAfterNop] {
                           for entry in [0u64, item_len(prog[0]) as u64] {
                             // entry inside the code: programs of two or more items, plain configuration
                             if entry != 0 && (len < 2 || hooks != Hooks::None || !matches!(limit, None | Some(2))) {
@@ -414,6 +444,10 @@ fn gen(maxlen: usize) -> impl Fn(&mut EnumCtx) + Sync {
                                 continue;
                             }
                             if hooks == Hooks::StopAfterNop && !prog.contains(&Item::Nop) {
+                                continue;
+                            }
+                            // the limit-changing hook: programs with a NOP, one stack configuration
+                            if hooks == Hooks::LimitAfterNop && (!prog.contains(&Item::Nop) || stack == Some(0x108) || limit == Some(0)) {
                                 continue;
                             }
                             if !e.next() {
@@ -510,7 +544,7 @@ pub fn run(tier: Tier) -> i32 {
         return crate::common::finish_replay("C11", &art, &|ws| confirm_enum(&o, &g, ws));
     }
     let out = run_enum(&o, &g);
-    enum_evidence(&mut run, &out, "one case = (program of <= L instructions over {nop, mov rax imm, inc rcx, jmp next, jmp end, jmp self, jrcxz skip, call next, ret, syscall, int3, invalid byte}, instruction limit in {none,0,1,2,3,5}, stack or not, hook configuration); every case is driven by every schedule (steps only; k steps then execute() for every k) whose final state, result and error text must agree, and stepped against a loop-control model built on an independent decode; states = distinct configurations; distinct_nontrivial = distinct (final fingerprint, result)");
+    enum_evidence(&mut run, &out, "one case = (program of <= L instructions over {nop, mov rax imm, inc rcx, jmp next, jmp end, jmp self, jrcxz skip, call next, ret, syscall, int3, invalid byte}, instruction limit in {none,0,1,2,3,5}, stack or not, hook configuration in {none, stop before SYSCALL, stop after NOP, an after-hook on NOP that sets the limit to 3 mid-run}); every case is driven by every schedule (steps only; k steps then execute() for every k) whose final state, result and error text must agree, and stepped against a loop-control model built on an independent decode; states = distinct configurations; distinct_nontrivial = distinct (final fingerprint, result)");
     run.cov("program_max_length", json!(maxlen));
     run.guard("cases", out.cases >= 10_000 || out.capped, format!("{} configurations", out.cases));
     run.guard("outcomes-distinct", out.distinct > 20, format!("{} distinct final outcomes", out.distinct));
